@@ -115,5 +115,5 @@ package server
 //@   at appendTailRow#1 before assert [C36.tail_mode_keeps_last_n] parsed.OrderBy == "" && tailCount > 0 && arg2 == tailCount && sameSlice(arg1.values, grow)
 //@   at send#2 before assert [C36.plain_mode_sends_row] parsed.OrderBy == "" && tailCount <= 0 && sameSlice(as(arg2, "*pgproto3.DataRow").Values, grow)
 //@   at send#2 before assert [C36.limit_never_exceeded] sent == 0 || sent < limit
-//@   loop 1 invariant sent >= 0 && (sent == 0 || sent < limit)
-//@   loop 2 invariant sent >= 0 && (sent == 0 || sent < limit)
+//@   loop 1 invariant [C36.limit_never_exceeded.inv] sent >= 0 && (sent == 0 || sent < limit)
+//@   loop 2 invariant [C36.limit_never_exceeded.inv] sent >= 0 && (sent == 0 || sent < limit)
